@@ -818,10 +818,15 @@ class Emitter:
                 lines = self.cvalue(init, env, hint)
                 ty = hint or self._last_value_ty
                 lp, muts = self.let_pattern(pat, env, ty)
+                if lp.startswith("="):
+                    tmp = env.fresh()
+                    return [f"let {tmp} ←", lines, f"{lp[1:]} := {tmp}"]
                 return [f"let {lp} ←", lines] + muts
             c = self.cexpr(init, env, hint)
             ty = hint or c.ty
             lp, muts = self.let_pattern(pat, env, ty)
+            if lp.startswith("="):
+                return c.pre + [f"{lp[1:]} := {c.val}"]
             return c.pre + [f"let {lp} := {c.val}"] + muts
         if k == "assign":
             return self.cassign(st, env)
@@ -843,10 +848,32 @@ class Emitter:
             return []
         raise TErr(f"statement `{k}`")
 
+    def is_lean_mut(self, env, rust_name):
+        owner = env
+        while hasattr(owner, "tmp_owner"):
+            owner = owner.tmp_owner
+        return rust_name in getattr(owner, "lean_muts", set()) and rust_name in env.vars
+
+    def mark_lean_mut(self, env, rust_name):
+        owner = env
+        while hasattr(owner, "tmp_owner"):
+            owner = owner.tmp_owner
+        if not hasattr(owner, "lean_muts"):
+            owner.lean_muts = set()
+        owner.lean_muts.add(rust_name)
+
     def let_pattern(self, pat, env, ty):
-        """Declare the variables of a let pattern; returns (lean pattern, extra `let mut` lines)."""
+        """Declare the variables of a let pattern; returns (lean pattern, extra `let mut` lines).
+        A Rust `let` that shadows a variable which is mutable on the Lean side becomes an assignment
+        (Lean does not allow shadowing a `let mut`; the shadowed variable is dead in Rust anyway)."""
         if pat[0] == "pbind":
+            if self.is_lean_mut(env, pat[1]):
+                ln = env.vars[pat[1]][0]
+                env.vars[pat[1]] = (ln, ty)
+                return "=" + ln, []
             ln = self.declare(env, pat[1], ty, pat[3])
+            if pat[3]:
+                self.mark_lean_mut(env, pat[1])
             return (f"mut {ln}" if pat[3] else ln), []
         if pat[0] == "pwild":
             return "_", []
@@ -856,10 +883,13 @@ class Emitter:
             for q, t in zip(pat[1], tys):
                 t = t.strip() if t else None
                 if q[0] == "pbind":
+                    if self.is_lean_mut(env, q[1]):
+                        raise TErr("tuple let that shadows a mutable variable")
                     ln = self.declare(env, q[1], t, q[3])
                     names.append(ln)
                     if q[3]:
                         muts.append(f"let mut {ln} := {ln}")
+                        self.mark_lean_mut(env, q[1])
                 elif q[0] == "pwild":
                     names.append("_")
                 else:
@@ -1184,6 +1214,7 @@ class Emitter:
             binders.append(f"({ln} : {self.lean_type(ty)})")
             if pat[3]:
                 pre.append(f"let mut {ln} := {ln}")
+                self.mark_lean_mut(env, pat[1])
         for gname, gty in getattr(self.u, "ghost_params", {}).get(fn.name, []):
             ln = self.declare(env, gname, gty, False)
             binders.append(f"({ln} : {self.lean_type(gty)})")
